@@ -289,7 +289,7 @@ tableConstraintList:
 
 
 autoincrement:
-	{ } |
+	{ $$ = false } |
 	AUTOINCREMENT {
 		$$ = true
 	}
@@ -325,7 +325,7 @@ typeName:
 	}
 
 collate:
-	{ } |
+	{ $$ = "" } |
 	COLLATE literal {
 		$$ = $2
 	}
@@ -414,7 +414,7 @@ trigger:
 	}
 
 triggerList:
-	{ } |
+	{ $$ = nil } |
 	triggerList trigger {
 		$$ = append($1, $2)
 	}
